@@ -534,6 +534,31 @@ func main() {
 				return ""
 			}})
 	})
+	// the same alphabet over two keys WITHOUT merging states: what a clone shares with its origin (and
+	// any bookkeeping about it) is not visible in the node shapes, so here every sequence is kept -
+	// refused calls and repeated clones between two writes included
+	for _, deg := range []int{2, 3} {
+		deg := deg
+		if deg == 3 && r.Quick() {
+			continue
+		}
+		jobs = append(jobs, func() {
+			seq.Explore(r, &seq.Spec[*pair]{Name: fmt.Sprintf("btree/clone-isolation/unmerged/degree=%d", deg), Ops: pairOps([]int{0, 2}), Depth: r.Pick(5, 6), Sig: sigOf,
+				New: func() *pair {
+					a := btree.New(deg)
+					return &pair{a: a, b: a.Clone(), ma: &model{}, mb: &model{}}
+				},
+				After: func(s *pair) string {
+					if e := lightCheck(s.a, s.ma); e != "" {
+						return "original tree: " + e
+					}
+					if e := lightCheck(s.b, s.mb); e != "" {
+						return "cloned tree: " + e
+					}
+					return ""
+				}})
+		})
+	}
 	wkeys := []int{0, 1, 2, 3, 4}
 	jobs = append(jobs, func() {
 		seq.Explore(r, &seq.Spec[*wrap]{Name: "tree.BTree(wrapper)", Ops: wrapOps(wkeys), Depth: r.Pick(8, 14), Sig: sigOf,
